@@ -134,6 +134,9 @@ func (f *frame) applyContract(ct *Contract, callee *ssa.Function, args []Val, st
 		// inside a specification: no obligations
 	} else {
 		for _, r := range ct.Requires {
+			if r.Assumed {
+				continue // environment assumption of the callee: neither checked nor learnt here
+			}
 			g := c.evalBool(pre, r.Expr)
 			c.addObl(&Obl{Name: fmt.Sprintf("%s/call[%s]/requires#%d", f.fn.String(), ct.FuncName, r.N), Kind: "requires",
 				Cond: reach, Goal: g, Clause: r.Text, Pos: siteName, Props: r.Props})
@@ -486,7 +489,9 @@ func (e *Engine) verifyFunction(fn *ssa.Function, ct *Contract) *FuncReport {
 				nm = fmt.Sprintf("%s #%d", nm, seenP[nm])
 			}
 			o := c.addObl(&Obl{Name: nm, Kind: "safety", Cond: p.cond, Goal: sFalse, Clause: p.what, Pos: e.posString(p.pos)})
-			_ = o
+			if p.nAsserts > 0 && p.nAsserts < o.NAsserts {
+				o.NAsserts = p.nAsserts
+			}
 		}
 	}
 	rep.Notes = c.notes
